@@ -157,8 +157,48 @@ class Inliner:
                 continue
             self._host_q = q
             fn.body = self.block(fn.body, fn, [q], 0)
+            self._forward_result_variables(fn)
         ast.fix_missing_locations(self.m.tree)
         return self.stats
+
+    def _forward_result_variables(self, fn):
+        """`obj.field = helper(..)` was expanded to `__ret__h = V1 | V2 | ...` at the helper's return points followed by `obj.field = __ret__h`:
+        when the result variable is read only there and `obj.field` is a plain attribute chain on a local that the expanded body does not re-bind,
+        the values are stored where they are produced (`obj.field = V1` ...), which is the shape the helper was extracted from"""
+        def blocks(stmts):
+            yield stmts
+            for st in stmts:
+                for fld in ("body", "orelse", "finalbody"):
+                    sub = getattr(st, fld, None)
+                    if isinstance(sub, list) and sub and isinstance(sub[0], ast.stmt) and not isinstance(st, (ast.FunctionDef, ast.AsyncFunctionDef, ast.ClassDef)):
+                        yield from blocks(sub)
+                for h in getattr(st, "handlers", []) or []:
+                    yield from blocks(h.body)
+
+        for blk in list(blocks(fn.body)):
+            for st in list(blk):
+                if not (isinstance(st, ast.Assign) and len(st.targets) == 1 and isinstance(st.value, ast.Name) and st.value.id.startswith("__ret__")):
+                    continue
+                tgt = st.targets[0]
+                base = tgt
+                while isinstance(base, ast.Attribute):
+                    base = base.value
+                if not (isinstance(tgt, ast.Attribute) and isinstance(base, ast.Name)):
+                    continue
+                rv = st.value.id
+                reads = [n for n in ast.walk(fn) if isinstance(n, ast.Name) and n.id == rv and isinstance(n.ctx, ast.Load)]
+                if len(reads) != 1:
+                    continue
+                stores = [a for a in ast.walk(fn) if isinstance(a, ast.Assign) and len(a.targets) == 1 and isinstance(a.targets[0], ast.Name) and a.targets[0].id == rv]
+                other_stores = [n for n in ast.walk(fn) if isinstance(n, ast.Name) and n.id == rv and isinstance(n.ctx, ast.Store)]
+                if len(stores) != len(other_stores) or not stores:
+                    continue
+                # the base object must be the same object at every store: not re-bound anywhere between (conservatively: bound at most once in the function)
+                if sum(1 for n in ast.walk(fn) if isinstance(n, ast.Name) and n.id == base.id and isinstance(n.ctx, ast.Store)) > 1:
+                    continue
+                for a in stores:
+                    a.targets = [copy.deepcopy(tgt)]
+                blk.remove(st)
 
     def block(self, stmts: List[ast.stmt], host: ast.FunctionDef, stack: List[str], depth: int) -> List[ast.stmt]:
         out = []
@@ -937,6 +977,20 @@ class Inliner:
                         n.id = new_name
             blk[idx:idx + 1] = cbody
             return body
+        if isinstance(loop.target, ast.Tuple) and isinstance(y.value, ast.Tuple) and len(loop.target.elts) == len(y.value.elts) and all(isinstance(e, ast.Name) for e in loop.target.elts + y.value.elts) and len({e.id for e in y.value.elts}) == len(y.value.elts) and len({e.id for e in loop.target.elts}) == len(loop.target.elts):
+            # `for a, b in gen(): BODY` with `yield u, v`: element-wise the same renaming
+            tnames = [e.id for e in loop.target.elts]
+            vnames = [e.id for e in y.value.elts]
+            stored_in_cbody = {n.id for st in cbody for n in ast.walk(st) if isinstance(n, ast.Name) and isinstance(n.ctx, ast.Store)}
+            used_in_gen = {n.id for st in body for n in ast.walk(st) if isinstance(n, ast.Name)}
+            if all(t_ == v_ or (t_ not in stored_in_cbody and t_ not in used_in_gen) for t_, v_ in zip(tnames, vnames)):
+                ren = {v_: t_ for t_, v_ in zip(tnames, vnames) if t_ != v_}
+                for st in body:
+                    for n in ast.walk(st):
+                        if isinstance(n, ast.Name) and n.id in ren:
+                            n.id = ren[n.id]
+                blk[idx:idx + 1] = cbody
+                return body
         bind = self._at(ast.Assign(targets=[self._store(loop.target)], value=y.value), loop)
         blk[idx:idx + 1] = [bind] + cbody
         return body
